@@ -36,7 +36,7 @@ def validate(module, cfg, traces, name, workers=16, timeout=3600, overrides=None
     where = {}
     if rejected:
         byid = {str(t["id"]): t for t in traces}
-        sub = [byid[i] for i in rejected[:20]]
+        sub = [byid[i] for i in rejected[:400]]
         with open(path, "w") as fh:
             for t in sub:
                 fh.write(json.dumps(t, separators=(",", ":")) + "\n")
@@ -53,7 +53,7 @@ def validate(module, cfg, traces, name, workers=16, timeout=3600, overrides=None
         ov["Verbose"] = "TRUE"
         tlc.run(module, cfg, name=name + "-why", workers=1, on_line=on_line2, env={"TRACE_FILE": path},
                 timeout=timeout, overrides=ov)
-        for i in rejected[:20]:
+        for i in rejected[:400]:
             where[i] = reached.get(i, 1)     # 1-based index of the first step that was not matched
     tlc.cleanup(d)
     return accepted, where, res
